@@ -151,6 +151,10 @@ def xref_problems(model) -> list[str]:
         ids = [x.id for x in list.__iter__(dl)]
         if len(ids) != len(set(ids)):
             bad.append(f"duplicate {kind} ids")
+        stale = sorted(set(getattr(dl, "_dict", {})) - set(ids))
+        if stale:
+            # `id in list`, has_id, index and get_by_id answer from the index: an entry without an element reports an absent object as present
+            bad.append(f"the {kind} list answers lookups for ids it does not hold: {stale[:4]}")
         for pos, x in enumerate(list.__iter__(dl)):
             try:
                 if dl.get_by_id(x.id) is not x:
